@@ -262,6 +262,11 @@ func genDigits(rng *rand.Rand, n int) string {
 // genName builds a dotted name; with probability it pads the total length to the
 // neighbourhood of 253.
 func genName(rng *rand.Rand) string {
+	if rng.IntN(120) == 0 {
+		// far beyond any limit of the grammar (buffers and caps sized "generously")
+		n := pick(rng, 1023, 1024, 1025, 2051, 4097, 70000)
+		return pick(rng, strings.Repeat("a", n), strings.Repeat("a.", n/2)+"z", strings.Repeat("é", n/2), "x."+strings.Repeat("b", n)+".com")
+	}
 	if rng.IntN(60) == 0 {
 		// as many labels as a name can have: one- and two-octet labels up to (and past) 253 octets
 		n := pick(rng, 63, 64, 84, 85, 125, 126, 127, 127, 128, 129)
